@@ -162,7 +162,7 @@ class Sandbox:
     def base_env(self):
         return {"HOME": self.p("home")}
 
-    def invoke(self, args, cwd="", env=None, fsize=None, stdin=None, timeout=HANG_S, binary=None):
+    def invoke(self, args, cwd="", env=None, fsize=None, stdin=None, timeout=HANG_S, binary=None, nofile=None):
         """Run `ucg <args>` with cwd (relative to the sandbox root), exactly the
         environment `env` plus HOME, optional RLIMIT_FSIZE (torn write at byte N)."""
         full_env = self.base_env()
@@ -176,6 +176,9 @@ class Sandbox:
             if fsize is not None:
                 signal.signal(signal.SIGXFSZ, signal.SIG_IGN)
                 resource.setrlimit(resource.RLIMIT_FSIZE, (fsize, fsize))
+            if nofile is not None:
+                # resource exhaustion: at most `nofile` open descriptors (stdin/stdout/stderr included)
+                resource.setrlimit(resource.RLIMIT_NOFILE, (nofile, nofile))
             resource.setrlimit(resource.RLIMIT_CORE, (0, 0))
 
         t0 = time.monotonic()
